@@ -32,6 +32,10 @@ C11_OthersUndisturbed(r) == \A k \in 1..Len(r.obs.others) :
 (*      "call"   w  x     enqueue x to worker w and take the next result     *)
 (*      "callk"  w  x     the same with a keyword of its own for this input  *)
 (*      "busy"   w        enqueue a job that is one long blocking call       *)
+(*      "cut"    id       the header of a context request (create / delete)  *)
+(*                        naming id, then the connection is dropped: no      *)
+(*                        request was made - the context exists until it is   *)
+(*                        deleted                                             *)
 (*      "rstart" id       worker request naming id by a client that has been *)
 (*                        reset before the server gets to read the request   *)
 (*      "wait"   w        close + wait worker w                              *)
@@ -91,6 +95,7 @@ Expected(h, n) ==
      [] q.op = "callk"  -> IF WorkerEnded(h, n - 1, q.w) THEN "dead"                \* one input with its own keyword: overrides the default
                            ELSE Val(CtxTarget(q.x, OverrideTok))                     \* for THIS input only
      [] q.op = "rstart" -> "nostart"
+     [] q.op = "cut"    -> "dropped"
      [] q.op = "wait"   -> "T"
      [] OTHER -> "any"
 
@@ -145,7 +150,7 @@ C18_UnknownHarmless(r) == NamesUnknown(r) =>
 (*                call did not return within the bound); error: "WTE" |      *)
 (*                "None" | "other:<Type>"; blocked "T" iff any call hung     *)
 (***************************************************************************)
-LiveAtStop(k) == k.state \in {"coop", "swallow", "idle", "inctx", "inctx-coop", "inctx-swallow"}
+LiveAtStop(k) == k.state \in {"coop", "swallow", "swallow-t", "idle", "inctx", "inctx-coop", "inctx-swallow"}
 C12_Reaped(r) == /\ r.obs.srv_dead = "T"
                  /\ r.obs.left = 0
                  /\ \A k \in 1..Len(r.obs.kids) : r.obs.kids[k].os_dead = "T"
@@ -158,7 +163,7 @@ C12_ParentsKnow(r) == \A k \in 1..Len(r.scn.kids) :
 \* the termination request IS able to report when the server is stopped by terminate() in an orderly way, i.e.
 \* no start-up is in progress and at most two other children have to be waited out (1 s each) within the
 \* parent's 5 s (otherwise the SIGTERM handler may legitimately kill it before it reports)
-SwallowCount(r) == Cardinality({k \in 1..Len(r.scn.kids) : r.scn.kids[k].state \in {"swallow", "inctx-swallow"}})
+SwallowCount(r) == Cardinality({k \in 1..Len(r.scn.kids) : r.scn.kids[k].state \in {"swallow", "swallow-t", "swallow-gone", "inctx-swallow"}})
 AbleToReport(r, k) == /\ r.scn.how = "terminate" /\ r.scn.racer = "none" /\ SwallowCount(r) <= 2
                       /\ r.scn.kids[k].state \in {"coop", "idle", "inctx", "inctx-coop"}
 C12_ErrorKind(r) == \A k \in 1..Len(r.scn.kids) :
